@@ -968,6 +968,18 @@ fn text_case(ctx: &mut Ctx, c: &TextCfg, mode: Mode, old: &[u8], new: &[u8]) -> 
     let ans = text_answer(&ev);
     ctx.emit(&req, &ans);
     ctx.count(&format!("text.kind.{}.{}", c.kind.name(), mode.name()));
+    ctx.count(&format!(
+        "text.cell.{}.{}.{}.nlt{}.dl{}",
+        c.kind.name(),
+        mode.name(),
+        alg_name(c.alg),
+        match c.nlt {
+            None => "-",
+            Some(false) => "0",
+            Some(true) => "1",
+        },
+        if c.dl.is_some() { 1 } else { 0 }
+    ));
     match &ev {
         None => ctx.violation("C04", &req, "the text diff panicked".to_string()),
         Some(e) => {
@@ -981,6 +993,9 @@ fn text_case(ctx: &mut Ctx, c: &TextCfg, mode: Mode, old: &[u8], new: &[u8]) -> 
 /// a pair in every applicable mode, plus the C20 / C07 checks
 fn text_pair(ctx: &mut Ctx, c: &TextCfg, old: &[u8], new: &[u8], idx: u64) {
     let valid = is_utf8(old) && is_utf8(new);
+    // the gates below must not correlate with how the caller derived kind / algorithm / newline override from the
+    // same index: use a scrambled copy
+    let gate = (idx ^ 0x5bd1).wrapping_mul(0x9E37_79B9_7F4A_7C15) >> 17;
     let (_, eb) = text_case(ctx, c, Mode::Bytes, old, new);
     let es = if valid { text_case(ctx, c, Mode::Str, old, new).1 } else { None };
     if !valid {
@@ -997,7 +1012,7 @@ fn text_pair(ctx: &mut Ctx, c: &TextCfg, old: &[u8], new: &[u8], idx: u64) {
         }
     }
     // C20: repeated run, fresh thread
-    let mode = if valid && idx % 2 == 0 { Mode::Str } else { Mode::Bytes };
+    let mode = if valid && (gate / 3) % 2 == 0 { Mode::Str } else { Mode::Bytes };
     let base = if mode == Mode::Str { &es } else { &eb };
     if let Some(base) = base {
         let req = text_request(c, mode, old, new);
@@ -1005,7 +1020,7 @@ fn text_pair(ctx: &mut Ctx, c: &TextCfg, old: &[u8], new: &[u8], idx: u64) {
         if again.as_ref().map(|e| &e.ops) != Some(&base.ops) {
             ctx.violation("C20", &req, "a second run gives different ops".to_string());
         }
-        if idx % 32 == 0 && c.dl.is_none() {
+        if (gate / 7) % 32 == 0 && c.dl.is_none() {
             let c2 = *c;
             let th = std::thread::scope(|s| s.spawn(move || text_eval_mode(&c2, DlHow::Deadline, mode, old, new).map(|e| e.ops)).join());
             ctx.count("text.thread_runs");
@@ -1014,7 +1029,7 @@ fn text_pair(ctx: &mut Ctx, c: &TextCfg, old: &[u8], new: &[u8], idx: u64) {
             }
         }
         // C07 plumbing on a subset: expired deadline, timeout
-        if idx % 5 == 0 && c.dl.is_none() {
+        if gate % 5 == 0 && c.dl.is_none() {
             let mut c0 = *c;
             c0.dl = Some(0);
             let (_, e0) = text_case(ctx, &c0, mode, old, new);
@@ -1036,9 +1051,9 @@ fn text_pair(ctx: &mut Ctx, c: &TextCfg, old: &[u8], new: &[u8], idx: u64) {
                     }
                 }
             }
-            if idx % 10 == 0 {
+            if gate % 10 == 0 {
                 let mut ck = *c;
-                ck.dl = Some(1 + (idx / 10) % 4);
+                ck.dl = Some(1 + (gate / 11) % 4);
                 text_case(ctx, &ck, mode, old, new);
             }
         }
@@ -1124,9 +1139,99 @@ fn distinct_tokens_case(ctx: &mut Ctx, alg: Algorithm, req: &str, old: &str, new
     }
 }
 
+/// Implementation only (too big for the model's quadratic tables): a changed middle of more than 1024 x 1024 line pairs
+/// between a shared head and tail, all algorithms, through every text-level validator (C04 reconstruction and
+/// indices, C02 walk, C09 normal form, C11 positions, C03 minimality, C14 = diff of the token slices)
+fn big_middle_text_cases(ctx: &mut Ctx) {
+    let head: String = (0..5).map(|i| format!("head {}\n", i)).collect();
+    let tail: String = (0..5).map(|i| format!("tail {}\n", i)).collect();
+    let mid_old: String = (0..1100).map(|i| format!("old {}\n", i)).collect();
+    let mid_new: String = (0..1100).map(|i| if i % 50 == 3 { format!("old {}\n", i) } else { format!("new {}\n", i) }).collect();
+    let old = format!("{}{}{}", head, mid_old, tail);
+    let new = format!("{}{}{}", head, mid_new, tail);
+    for alg in ALGS {
+        let c = TextCfg { kind: Kind::Lines, alg, nlt: None, dl: None };
+        let req = format!("text lines str {} - - | <5 shared lines, 1100 old lines, 5 shared lines> | <5 shared, 1100 lines of which every 50th is kept, 5 shared> | - | -", alg_name(alg));
+        ctx.count("text.big_middle_cases");
+        match text_eval_mode(&c, DlHow::Deadline, Mode::Str, old.as_bytes(), new.as_bytes()) {
+            None => ctx.violation("C04", &req, "the text diff panicked".to_string()),
+            Some(e) => check_text(ctx, &req, &c, old.as_bytes(), new.as_bytes(), &e),
+        }
+    }
+}
+
+/// C07 on the REAL clock (no virtual clock installed): a deadline in the past behaves like the virtual clock that is
+/// expired from the first probe; a deadline / timeout far in the future like no deadline; a `timeout` counts from
+/// the moment the diff is made, not from the moment the builder was configured (the builder is kept for longer than
+/// its timeout before it is used).
+fn wall_clock_cases(ctx: &mut Ctx) {
+    use similar::verif_hooks;
+    // every other line of the changed middle is common: the shortest script keeps those lines, the expired-deadline
+    // fallback replaces the whole middle, so "expired or not" is visible in the ops
+    let old: String = (0..40).map(|i| if i % 2 == 0 { format!("common {}\n", i) } else { format!("old line {}\n", i * 7 % 41) }).collect();
+    let new: String = (0..44).map(|i| if i % 2 == 0 { format!("common {}\n", i) } else { format!("new line {}\n", i * 5 % 47) }).collect();
+    let shared: String = (0..30).map(|i| format!("{}\n", i % 9)).collect();
+    let (old, new) = (format!("{}{}{}", shared, old, shared), format!("{}{}x\n{}", shared, new, shared));
+    verif_hooks::clear_clock();
+    let mut kept: Vec<(Algorithm, similar::TextDiffConfig)> = vec![];
+    for alg in ALGS {
+        let mut cfg = TextDiff::configure();
+        cfg.algorithm(alg).timeout(Duration::from_millis(900));
+        kept.push((alg, cfg));
+    }
+    let configured = Instant::now();
+    for alg in ALGS {
+        let req = format!("text lines str {} wall-clock | {} | {}", alg_name(alg), hex(old.as_bytes()), hex(new.as_bytes()));
+        let none = catch_unwind(AssertUnwindSafe(|| TextDiff::configure().algorithm(alg).diff_lines(&old, &new).ops().to_vec())).ok();
+        let c0 = TextCfg { kind: Kind::Lines, alg, nlt: None, dl: Some(0) };
+        let virt0 = text_eval_mode(&c0, DlHow::Deadline, Mode::Str, old.as_bytes(), new.as_bytes()).map(|e| e.ops);
+        verif_hooks::clear_clock();
+        let past = Instant::now();
+        std::thread::sleep(Duration::from_millis(3));
+        let real_past = catch_unwind(AssertUnwindSafe(|| TextDiff::configure().algorithm(alg).deadline(past).diff_lines(&old, &new).ops().to_vec())).ok();
+        let real_future = catch_unwind(AssertUnwindSafe(|| {
+            TextDiff::configure().algorithm(alg).deadline(Instant::now() + Duration::from_secs(3600)).diff_lines(&old, &new).ops().to_vec()
+        }))
+        .ok();
+        let real_timeout = catch_unwind(AssertUnwindSafe(|| TextDiff::configure().algorithm(alg).timeout(Duration::from_secs(3600)).diff_lines(&old, &new).ops().to_vec())).ok();
+        let o: Vec<&str> = old.split_inclusive('\n').collect();
+        let n: Vec<&str> = new.split_inclusive('\n').collect();
+        let cap_past = catch_unwind(AssertUnwindSafe(|| similar::capture_diff_slices_deadline(alg, &o, &n, Some(past)))).ok();
+        ctx.count("text.wall_clock_cases");
+        if none != virt0 {
+            ctx.count("text.wall_clock_cases_where_expiry_is_visible");
+        }
+        if real_past != virt0 || cap_past != virt0 {
+            ctx.violation("C07", &req, "a deadline in the past (real clock) does not give the result of the virtual clock expired from the first probe".to_string());
+        }
+        if real_future != none || real_timeout != none {
+            ctx.violation("C07", &req, "a deadline / timeout one hour ahead (real clock) does not give the result of no deadline".to_string());
+        }
+    }
+    // the kept builders: wait until more than their timeout has passed since they were configured
+    let wait = Duration::from_millis(1000).saturating_sub(configured.elapsed());
+    std::thread::sleep(wait);
+    for (alg, cfg) in &kept {
+        let req = format!("text lines str {} kept-builder-timeout | {} | {}", alg_name(*alg), hex(old.as_bytes()), hex(new.as_bytes()));
+        let none = TextDiff::configure().algorithm(*alg).diff_lines(&old, &new).ops().to_vec();
+        let t0 = Instant::now();
+        let got = cfg.diff_lines(&old, &new).ops().to_vec();
+        // (if the diff itself took anywhere near the timeout the comparison would be meaningless: it takes microseconds)
+        if t0.elapsed() < Duration::from_millis(300) && got != none {
+            ctx.violation("C07", &req, "a builder configured with .timeout(900ms) and used 1 s later behaves as if the deadline had passed: the timeout must count from the diff".to_string());
+        }
+    }
+}
+
 pub fn suite_text(ctx: &mut Ctx) {
     if ctx.take() {
         many_distinct_tokens(ctx);
+    }
+    if ctx.take() {
+        wall_clock_cases(ctx);
+    }
+    if ctx.take() {
+        big_middle_text_cases(ctx);
     }
     const PIECES: [&str; 8] = ["a\n", "b\n", "a\r\n", "c\r", "a", " ", "é", "x y"];
     let (nrand, nbig) = match ctx.tier {
@@ -1741,6 +1846,19 @@ fn udiff_case(ctx: &mut Ctx, c: &UCfg, mode: Mode, old: &[u8], new: &[u8]) -> St
     let req = udiff_request(c, &r);
     ctx.emit(&req, &ans);
     ctx.count(&format!("udiff.{}.{}", mode.name(), if c.writer { "writer" } else { "display" }));
+    // configuration cells (a generator whose flags are correlated leaves cells empty: visible in the evidence)
+    ctx.count(&format!(
+        "udiff.cell.{}.hdr{}.hint{}.nlt{}.{}",
+        alg_name(c.alg),
+        c.hdr as u8,
+        c.hint as u8,
+        match c.nlt {
+            None => "-",
+            Some(false) => "0",
+            Some(true) => "1",
+        },
+        if c.writer { "writer" } else { "display" }
+    ));
     if ans == "panic" {
         ctx.violation("C05", &req, "rendering panicked".to_string());
         return ans;
@@ -1873,8 +1991,12 @@ pub fn suite_udiff(ctx: &mut Ctx) {
                     udiff_case(ctx, &c, mode, old, new);
                     if k % 16 == 5 {
                         // variants that are only rendered (and must not panic)
-                        udiff_case(ctx, &UCfg { hint: false, ..c }, mode, old, new);
-                        udiff_case(ctx, &UCfg { nlt: Some(false), ..c }, mode, old, new);
+                        // (k % 16 == 5 fixes the parity of k / 2: both sinks explicitly)
+                        for writer in [false, true] {
+                            udiff_case(ctx, &UCfg { hint: false, writer, ..c }, mode, old, new);
+                            udiff_case(ctx, &UCfg { nlt: Some(false), writer, ..c }, mode, old, new);
+                            udiff_case(ctx, &UCfg { nlt: Some(false), hint: false, writer, ..c }, mode, old, new);
+                        }
                     }
                 }
             }
@@ -1910,12 +2032,18 @@ pub fn suite_udiff(ctx: &mut Ctx) {
             ctx.count("udiff.invalid_utf8_pairs");
         }
         for writer in [false, true] {
-            let c = UCfg { alg: ALGS[(i % 3) as usize], radius: ((i / 3) % (max_radius as u64 + 1)) as usize, hdr: (i / 15) % 2 == 0, hint: true, writer, nlt: None };
+            let c = UCfg { alg: ALGS[((i / 7) % 3) as usize], radius: ((i / 3) % (max_radius as u64 + 1)) as usize, hdr: (i / 15) % 2 == 0, hint: true, writer, nlt: None };
             udiff_case(ctx, &c, mode, &old, &new);
         }
         if i % 20 == 0 {
-            let c = UCfg { alg: ALGS[(i % 3) as usize], radius: 1, hdr: true, hint: false, writer: i % 40 == 0, nlt: None };
+            let c = UCfg { alg: ALGS[((i / 7) % 3) as usize], radius: 1, hdr: true, hint: false, writer: i % 40 == 0, nlt: None };
             udiff_case(ctx, &c, mode, &old, &new);
+        }
+        if i % 20 == 10 {
+            for writer in [false, true] {
+                let c = UCfg { alg: ALGS[((i / 7) % 3) as usize], radius: (i % 3) as usize, hdr: i % 40 == 10, hint: i % 80 < 40, writer, nlt: Some(false) };
+                udiff_case(ctx, &c, mode, &old, &new);
+            }
         }
     }
 }
@@ -2206,9 +2334,11 @@ pub fn suite_inline(ctx: &mut Ctx) {
         if rng.chance(1, 2) {
             std::mem::swap(&mut old, &mut new);
         }
-        let mode = if i % 2 == 0 { Mode::Str } else { Mode::Bytes };
+        // (not `i % 2`: `periodic` is `i % 4 == 0`, `i % 5` picks the extra line)
+        let mode = if (i / 4) % 2 == 0 { Mode::Str } else { Mode::Bytes };
         ctx.count("inline.long_line_pairs");
-        inline_pair_mode(ctx, ALGS[(i % 3) as usize], mode, &old, &new, &[None, Some(0)]);
+        ctx.count(&format!("inline.cell.long.periodic{}.{}", periodic as u8, mode.name()));
+        inline_pair_mode(ctx, ALGS[((i / 8) % 3) as usize], mode, &old, &new, &[None, Some(0)]);
     }
     // [u8] lines with broken UTF-8 (handled since the [u8] Unicode tokenizers report real offsets): random positions,
     // and in particular inside the changed tail of a line that ends in \r\n, \n, \r or nothing
